@@ -28,8 +28,19 @@ Tie (route C, no hooks).  Per generated image and parameter set:
     `Model/StaticErrorCheck.check_se`).  The public `static_error` is called
     directly (masses <0, 0, NaN, inf; scalar and per-frame noise; both branches)
     and compared with `Model/StaticError.static_error` the same way.
+
+Route T.  tools/py2coq_tail.py re-translates the CURRENT text of trackpy/uncertainty.py
+(measure_noise, _root_sum_x_squared, _static_error, static_error) and of trackpy/feature.py
+(locate from the statement after the refine_com call to its return; batch) into
+coq/Gen/tail.v before the proofs are built (numpy / scipy / pandas operations stay named
+primitives: Model/PyTail.v).  Proofs/TailGen.v proves the generated functions equal to
+the hand-written models for all inputs and Properties/C08.v restates the headline theorems
+for them (C08_gen_*).  A source that leaves the translatable subset, or whose translation
+no longer satisfies those proofs, is reported through chk.proof_broken; the correspondence
+run still runs (on the hand-written executable models), so that a concrete failing input is
+searched for as well.
 """
-import json, math
+import json, math, os, sys, hashlib
 import numpy as np
 from fractions import Fraction
 import common, c08gen
@@ -46,6 +57,70 @@ def cQ(x):
     return "(Qmake (%s0x%x)%%Z 0x%x%%positive)" % ('-' if n < 0 else '', abs(n), d)
 
 IMPORTS = "From TP Require Import Model.LocateTail Model.LocateTailCheck."
+TRANSLATOR = os.path.join(common.VERIF, 'tools', 'py2coq_tail.py')
+GEN = os.path.join(common.COQ, 'Gen', 'tail.v')
+MODEL_FILES = ('Model/LocateTail.v', 'Model/LocateTailSpec.v', 'Model/LocateTailCheck.v', 'Model/Dilation.v', 'Model/COM.v',
+               'Model/LocatePipe.v', 'Model/StaticError.v', 'Model/StaticErrorCheck.v', 'Model/LocatePipeCheck.v')
+
+
+# ------------------------------------------------------------ translator / build
+def regenerate(chk):
+    """re-run the translator on the current source; returns (ok, text-or-log)"""
+    rc, out = common.sh([sys.executable, TRANSLATOR, '--repo', common.REPO, '--stdout'], timeout=60)
+    if rc != 0:
+        return False, out
+    with common.Lock(os.path.join(common.COQ, '.build.lock')):
+        old = open(GEN).read() if os.path.exists(GEN) else None
+        if old != out:
+            os.makedirs(os.path.dirname(GEN), exist_ok=True)
+            tmp = GEN + '.tmp%d' % os.getpid()
+            with open(tmp, 'w') as f:
+                f.write(out)
+            os.replace(tmp, GEN)
+            chk.tally('Gen/tail.v rewritten (source differs from last run)')
+        else:
+            chk.tally('Gen/tail.v unchanged')
+    return True, out
+
+
+def ensure_model(chk):
+    """the executable hand-written models are needed by the correspondence run even when the translation
+    or a proof about the generated functions is broken"""
+    def fresh(v):
+        vo = os.path.join(common.COQ, v + 'o')
+        return os.path.exists(vo) and os.path.getmtime(vo) >= os.path.getmtime(os.path.join(common.COQ, v))
+    if all(fresh(v) for v in MODEL_FILES):
+        return True
+    with common.Lock(os.path.join(common.COQ, '.build.lock')):
+        rc, out = common.sh('timeout 900 make %s 2>&1 | tail -25' % ' '.join(v + 'o' for v in MODEL_FILES), timeout=930, cwd=common.COQ)
+    if not all(fresh(v) for v in MODEL_FILES):
+        chk.proof_broken('executable models of C08', out)
+        return False
+    return True
+
+
+def build(chk):
+    """translator -> cone of Properties/C08.v; returns True when the executable models are available"""
+    ok, text = regenerate(chk)
+    if not ok:
+        chk.proof_broken('translation tools/py2coq_tail.py (trackpy/uncertainty.py, or the tail of locate / batch in '
+                         'trackpy/feature.py, left the translatable subset)', text)
+        chk.build = dict(obligations=0, discharged=0, assumptions=[], files=[], theorems=[])
+    else:
+        for attempt in range(3):
+            b = chk.coq()
+            if open(GEN).read() == text:
+                break
+            # another run (different TRACKPY_REPO) rewrote the generated file in between: redo
+            chk.violations = [v for v in chk.violations if not v[0].startswith('proof:')]
+            regenerate(chk)
+        chk.notes.append('Gen/tail.v sha1 %s generated from %s' % (hashlib.sha1(text.encode()).hexdigest()[:12], common.REPO))
+        if not b['ok']:
+            # say which statement about the generated functions no longer checks
+            with common.Lock(os.path.join(common.COQ, '.build.lock')):
+                rc, out = common.sh('timeout 600 make Proofs/TailGen.vo 2>&1 | tail -25', timeout=630, cwd=common.COQ)
+            chk.notes.append('make Proofs/TailGen.vo (generated functions = models): ' + out[-2500:])
+    return ensure_model(chk)
 FUNC = "check_locate"
 WC_FUNC = "fun c => match c with (sep, pts, drop) => check_wc sep pts drop end"
 SE_IMPORTS = "From Coq Require Import String.\nFrom TP Require Import Model.LocateTail Model.StaticError Model.StaticErrorCheck."
@@ -723,7 +798,8 @@ def tally_info(chk, case, info):
 
 def run(chk):
     common.quiet_trackpy()
-    chk.coq()
+    if not build(chk):
+        return
     rng = chk.rng
     n = 150 if chk.tier == 'quick' else 1500
     cases, terms, results = [], [], []
@@ -871,6 +947,12 @@ def run(chk):
         "measure_noise directly: 2-D / 3-D uint8 images 4-13 px, signal density 0-50 %, radii 1-3 per axis, raw image different from the processed one (also signed raw frames with negative pixels and their clipped copy as processed image), against Model/LocatePipe.measure_noise (none / one / several background pixels). "
         "topn >= 1 only (topn=0 returns the whole table: Python slice [-0:], outside the property). non-trivial = unrestricted result with >= 3 features / >= 3 points")
     chk.assumptions += [
+        "Gen/tail.v is produced from the current trackpy/uncertainty.py and trackpy/feature.py (tail of locate after the refine_com call; batch) by "
+        "tools/py2coq_tail.py (trusted, fail-closed; subset, conventions and the list of numpy / scipy / pandas primitives in its docstring and in "
+        "Model/PyTail.v); where_close itself (find.py) is a named primitive here (translated for C06: Gen/find.v); locate's head is pinned textually "
+        "where it defines the variables the tail reads; batch with output / meta / after_locate at their default None; the pandas / numpy primitives "
+        "carry the meaning of the hand-written models (index labels by position after reset_index, concat(axis=1) only for identical indexes, "
+        "argsort as the stable insertion sort), each exercised by the correspondence",
         "everything before the tail (bandpass, grey_dilation, refine_com) is taken from trackpy itself by repeating locate's head; 'inside the image' is monitored on outputs, its proof belongs to C07",
         "query_pairs(1 - 1e-7) is modelled as 'rescaled distance < 1'; cases with a pair within 1e-5 of the boundary are excluded from the exact where_close comparison and counted",
         "ep: exact rational formula compared with the float result to 1e-9 relative; rows with |raw_mass - N*black| below 1e-6 of its terms are excluded from the value comparison (sign still monitored)",
@@ -884,7 +966,8 @@ def run(chk):
 
 def replay(chk, path):
     common.quiet_trackpy()
-    chk.coq()
+    if not build(chk):
+        return
     r = json.load(open(path))['replay']
     if r.get('kind') == 'locate':
         case = case_from_json(r['case'])
